@@ -30,12 +30,16 @@ def boundaries(text):
             in_define = text[pos:].lstrip(" \t").startswith("#define")
         if "\n" in t:
             in_define = False
-        if t == "[":
-            depth += 1
-        if not in_define and depth == 0 and i > 0 and not t.isspace() and pos > 0:
+        # the boundary between a field name and its first '[' is a token boundary outside the brackets; the
+        # bracket region itself (from the first '[' to the last ']' of the declarator) is line-oriented
+        prev_nonspace = next((x for x in reversed(toks[:i]) if not x.isspace()), "")
+        if not in_define and depth == 0 and i > 0 and not t.isspace() and pos > 0 and not (
+                t == "[" and prev_nonspace == "]"):
             prev = toks[i - 1]
             kind = ("ws" if prev.isspace() else "tight") + ":" + (prev.strip() or "_")[-1:] + "|" + t[:1]
             out.append((pos, kind))
+        if t == "[":
+            depth += 1
         if t == "]":
             depth = max(0, depth - 1)
         pos += len(t)
